@@ -247,6 +247,7 @@ type tickRec struct {
 }
 
 type ejection struct {
+	at       time.Time
 	step     int
 	heap     uint64
 	maxAlloc uint64
@@ -807,7 +808,7 @@ func (w *worldA) hooks() {
 		if strings.Contains(tk.Key, "monitor") && w.heapNext > 0 {
 			ma := uint64(w.cfg.GetCollectionConfig().GetMaxAlloc())
 			if ma > 0 && w.heapNext >= ma {
-				w.pendingEj = &ejection{step: w.out.Steps, heap: w.heapNext, maxAlloc: ma, before: w.snapshotBuffers()}
+				w.pendingEj = &ejection{at: time.Now(), step: w.out.Steps, heap: w.heapNext, maxAlloc: ma, before: w.snapshotBuffers()}
 				w.ejections = append(w.ejections, w.pendingEj)
 				w.out.Fault("memory_pressure_reading")
 				// all workers eject at once and draw from the shared sampler
